@@ -273,7 +273,7 @@ class Src(str):
         try:
             pat = ast.parse(_dedent(needle))
         except SyntaxError:
-            return False
+            return self._contains_header(needle)
         if not pat.body:
             return False
         if len(pat.body) == 1 and isinstance(pat.body[0], ast.Expr):
@@ -290,6 +290,39 @@ class Src(str):
                         env = {}
                         if all(_match(p_, c_, env) for p_, c_ in zip(stmts, seq[i:i + len(stmts)])):
                             return True
+        return False
+
+    def _contains_header(self, needle):
+        """a needle that is the HEADER of a compound statement ("while a > b + 1:", "if x and y < z[-1]:", "for v in w:",
+        "elif ...:", "except (A, B) as e:") matches a statement of that kind whose header has the same shape"""
+        text = _dedent(needle).strip()
+        if "\n" in text or not text.endswith(":"):
+            return False
+        if text.startswith("elif "):
+            text = "if " + text[5:]
+        try:
+            if text.startswith("except"):
+                pat = ast.parse("try:\n    pass\n" + text + "\n    pass").body[0].handlers[0]
+            else:
+                pat = ast.parse(text + "\n    pass").body[0]
+        except (SyntaxError, IndexError):
+            return False
+        for n in ast.walk(self.node):
+            if type(n) is not type(pat):
+                continue
+            env = {}
+            if isinstance(pat, (ast.While, ast.If)):
+                ok = _match(pat.test, n.test, env)
+            elif isinstance(pat, ast.For):
+                ok = _match(pat.target, n.target, env) and _match(pat.iter, n.iter, env)
+            elif isinstance(pat, ast.ExceptHandler):
+                ok = (pat.type is None) == (n.type is None) and (pat.type is None or _match(pat.type, n.type, env)) and (pat.name is None) == (n.name is None)
+            elif isinstance(pat, ast.With):
+                ok = len(pat.items) == len(n.items) and all(_match(a.context_expr, b.context_expr, env) for a, b in zip(pat.items, n.items))
+            else:
+                ok = False
+            if ok:
+                return True
         return False
 
     def count(self, needle, *a):
